@@ -303,6 +303,10 @@ func (r *runner) run(deadline time.Time) (*aggregate, error) {
 						g, i = w.group, w.from-1
 					}
 					agg.crashes++
+					if d := os.Getenv("VERIF_KEEP_STDERR"); d != "" {
+						os.MkdirAll(d, 0755)
+						os.WriteFile(filepath.Join(d, fmt.Sprintf("worker%d-g%d-i%d.stderr", w.id, g, i)), []byte(w.stderr.String()), 0644)
+					}
 					if i >= w.from {
 						cls := crashClass(w.stderr.String(), false)
 						record(&violRec{Sig: "crash|" + r.groups[g] + "|" + tagOf(w.hbPath) + "|" + cls, G: g, I: i, Detail: headTail(w.stderr.String()), N: 1, Crash: true})
